@@ -31,7 +31,7 @@ ASSUMPTIONS = [
     "the resulting method set after a history is: registrations in order minus unregistered functions",
     "iteration order pinned identically on both sides",
 ]
-REPORT_COUNTERS = ["histories_ovld", "histories_ovld_linkback_child", "histories_mtm", "mutations", "probe_comparisons", "rereg_ops", "unreg_ops",
+REPORT_COUNTERS = ["histories_ovld", "histories_ovld_linkback_child", "histories_ovld_linkback_grandchild", "histories_mtm", "mutations", "probe_comparisons", "rereg_ops", "unreg_ops",
                    "mutation_after_failing_probe", "mutation_before_first_use", "mtm_lookups_raised", "histories_ovld_middle"]
 
 
@@ -48,7 +48,9 @@ def gen_case(rng, params, idx):
     # ovld_mixed: a plain copy under test whose parent also has a *linkback* copy (derived first)
     # ovld_middle: the function that is modified is itself a copy (of a root that is never touched), and the linkback copy
     #             under test was derived from it while it had no method of its own yet
-    target = ("mtm" if idx % 4 == 3 else "ovld_middle" if idx % 16 == 9 else "ovld_lb" if idx % 4 == 1
+    # ovld_lb2: the copy under test is a linkback copy of a linkback copy (the one in the middle is never called, hence never
+    #           built) of the function that is modified
+    target = ("mtm" if idx % 4 == 3 else "ovld_middle" if idx % 16 == 9 else "ovld_lb2" if idx % 16 == 1 else "ovld_lb" if idx % 4 == 1
               else "ovld_chain" if idx % 8 == 6 else "ovld_mixed" if idx % 8 == 2 else "ovld")
     hier = gen.gen_hierarchy(rng, rng.randint(2, 5), attrs=False, p_multi=0.5)
     pool = [s["name"] for s in hier] + ["object", "int", "str"]
@@ -137,7 +139,11 @@ def _check_ovld(spec, res, env):
     if spec.get("sibling"):
         S = H.copy(linkback=True)       # derived *before* the copy under test: it is brought up to date first
     # what is called: the function itself, or a linkback copy of it (the parent is then never called)
-    C = H.copy(linkback=True) if spec["target"] in ("ovld_lb", "ovld_chain", "ovld_middle") else H
+    C = H.copy(linkback=True) if spec["target"] in ("ovld_lb", "ovld_lb2", "ovld_chain", "ovld_middle") else H
+    if spec["target"] == "ovld_lb2":
+        middle = C                      # noqa: F841  (kept alive, never called)
+        C = C.copy(linkback=True)
+        res.count("histories_ovld_linkback_grandchild")
     if spec["target"] == "ovld_chain":
         C = C.copy()
         res.count("histories_ovld_chain")
